@@ -5,7 +5,7 @@ use crate::glue::*;
 use crate::prop::*;
 use crate::spec::*;
 use rl2tp::avp::AVP;
-use rl2tp::common::{Reader, SliceReader, VecWriter};
+use rl2tp::common::{Reader, SliceReader};
 use rl2tp::Message;
 use serde_json::{json, Value};
 
@@ -14,7 +14,7 @@ pub static DEF: PropDef = PropDef {
     title: "Control messages and all AVP kinds survive encode then decode unchanged",
     rule: "G-val tapes: control messages of 0..~70 AVPs (all 39 standard kinds with boundary-biased integers, blobs/strings of 1..1017 octets with extra mass on AVP totals 255/256/1022/1023, \
 optional tails absent/present, opaque hidden AVPs of any u16 type) built under the 65 535-octet budget with a Message Type first, occasionally filling the message to (or exactly to) 65 535 octets; \
-and single AVPs. Oracle: Message::write -> try_read_validate(Yes,Yes,Yes) = Ok(m[length := octets emitted]) with the reader empty afterwards; AVP::write -> try_read_greedy = [Ok(a)]; \
+and single AVPs. The writer already holds a prefix of 0..~200 000 octets in half of the cases (extra mass around 2^16). Oracle: Message::write -> try_read_validate(Yes,Yes,Yes) = Ok(m[length := octets emitted]) with the reader empty afterwards; AVP::write -> try_read_greedy = [Ok(a)]; \
 compared both with the crate's own PartialEq and field-for-field after projection. Non-trivial = a message with at least one AVP, or a single AVP; distinct by hash of the encoding.",
     assumptions: &["values are built through the crate's public fields/constructors only; enumerated values are chosen by name from the harness's own RFC tables"],
     parts,
@@ -27,8 +27,8 @@ compared both with the crate's own PartialEq and field-for-field after projectio
 
 fn parts(t: Tier) -> Vec<Part> {
     let (a, b, c) = match t {
-        Tier::Quick => (150_000, 400_000, 1_500),
-        Tier::Thorough => (2_500_000, 6_000_000, 30_000),
+        Tier::Quick => (450_000, 1_200_000, 4_500),
+        Tier::Thorough => (5_000_000, 12_000_000, 60_000),
     };
     vec![tape("messages", a, 2500), tape("avps", b, 1200), tape("bigmessages", c, 3000)]
 }
@@ -55,16 +55,12 @@ pub fn avp_classes(a: &SAvp, wire_len: usize, cx: &mut Cx) {
     }
 }
 
-pub fn check_message(m: &SMsg, family: &'static str, cx: &mut Cx) -> Res {
+pub fn check_message(m: &SMsg, prefix: &[u8], family: &'static str, cx: &mut Cx) -> Res {
     cx.eval();
-    let render = || json!({"message": format!("{:?}", m)});
+    let render = || json!({"message": format!("{:?}", m), "writer_already_holds_octets": prefix.len()});
     cx.stage(STAGE_ARMED);
-    let cm = to_crate_msg(m);
-    let e = match guard(|| {
-        let mut w = VecWriter::new();
-        cm.write(&mut w);
-        w.data
-    }) {
+    // the writer may already hold octets (an earlier message, a caller's prefix): the message is what gets appended
+    let e = match crate_encode_msg_after(m, prefix) {
         Caught::Ok(e) => e,
         Caught::Panic(p) => return fail(format!("encoding a message in the encodable domain panicked: {}", p.short()), render()),
         Caught::Monitor(_) => return fail("unexpected panic payload", render()),
@@ -84,7 +80,7 @@ pub fn check_message(m: &SMsg, family: &'static str, cx: &mut Cx) -> Res {
         (d.map(|d| from_crate_msg(&d)), left, eq_native)
     });
     cx.stage(STAGE_SETUP);
-    let renc = || json!({"message": format!("{:?}", m), "encoding": hex(&e)});
+    let renc = || json!({"message": format!("{:?}", m), "encoding": hex(&e), "writer_already_holds_octets": prefix.len()});
     match r {
         Caught::Ok((Ok(d), left, eq_native)) => {
             if d != exp {
@@ -126,21 +122,22 @@ pub fn check_message(m: &SMsg, family: &'static str, cx: &mut Cx) -> Res {
         for a in avps {
             avp_classes(a, avp_wire_len(a), cx);
         }
-        cx.sample(family, || json!({"encoding": hex_short(&e), "avps": avps.len(), "family": family}));
+        cx.class(match prefix.len() {
+            0 => "encoded into an empty writer",
+            1..=400 => "encoded after a short prefix",
+            _ => "encoded after a prefix of about 2^16 octets or more",
+        });
+        cx.sample(family, || json!({"encoding": hex_short(&e), "avps": avps.len(), "writer_already_holds_octets": prefix.len(), "family": family}));
     }
     Ok(())
 }
 
-pub fn check_avp(a: &SAvp, cx: &mut Cx) -> Res {
+pub fn check_avp(a: &SAvp, prefix: &[u8], cx: &mut Cx) -> Res {
     cx.eval();
-    let render = || json!({"avp": format!("{:?}", a)});
+    let render = || json!({"avp": format!("{:?}", a), "writer_already_holds_octets": prefix.len()});
     cx.stage(STAGE_ARMED);
     let ca = to_crate(a);
-    let e = match guard(|| {
-        let mut w = VecWriter::new();
-        ca.write(&mut w);
-        w.data
-    }) {
+    let e = match crate_encode_avp_after(a, prefix) {
         Caught::Ok(e) => e,
         Caught::Panic(p) => return fail(format!("encoding an AVP in the encodable domain panicked: {}", p.short()), render()),
         Caught::Monitor(_) => return fail("unexpected panic payload", render()),
@@ -179,9 +176,18 @@ pub fn check_avp(a: &SAvp, cx: &mut Cx) -> Res {
 fn run_tape(part: &str, tape: &[u8], cx: &mut Cx) -> Res {
     let mut t = Tape::new(tape);
     match part {
-        "messages" => check_message(&gen_control(&mut t), "messages", cx),
-        "bigmessages" => check_message(&gen_control_big(&mut t), "bigmessages", cx),
-        _ => check_avp(&gen_avp(&mut t), cx),
+        "messages" => {
+            let p = gen_prefix(&mut t);
+            check_message(&gen_control(&mut t), &p, "messages", cx)
+        }
+        "bigmessages" => {
+            let p = if t.chance(30) { gen_prefix(&mut t) } else { Vec::new() };
+            check_message(&gen_control_big(&mut t), &p, "bigmessages", cx)
+        }
+        _ => {
+            let p = gen_prefix(&mut t);
+            check_avp(&gen_avp(&mut t), &p, cx)
+        }
     }
 }
 
